@@ -21,15 +21,21 @@ import (
 // shows here deterministically, whatever the interleaving; with several
 // goroutines the same state makes the result depend on the schedule.
 func TestC16Histories(t *testing.T) {
-	ops := []string{"Write", "Subset", "Subset", "Subset", "WritePDF", "AsCFFWrite", "Layout", "MakeGlyphNames", "WidthsPDF", "FontBBoxPDF", "ExplainGsub", "Apply"}
+	ops := []string{"Write", "Subset", "Subset", "Subset", "WritePDF", "AsCFFWrite", "Layout", "MakeGlyphNames", "MakeGlyphNames", "GlyphNames", "WidthsPDF", "FontBBoxPDF", "ExplainGsub", "Apply"}
 	rapid.Check(t, func(t *rapid.T) {
 		layout := genfont.LayoutSubset
 		if rapid.IntRange(0, 3).Draw(t, "allLayout") == 0 {
 			layout = genfont.LayoutAll
 		}
 		kind := rapid.SampledFrom([]genfont.Kind{genfont.KindCFF, genfont.KindCFF, genfont.KindCID, genfont.KindGlyf}).Draw(t, "kind")
+		// a third of the fonts carry glyph names as files can: duplicates,
+		// empty and invalid names, glyph 0 not called .notdef
+		names := genfont.NamesProper
+		if rapid.IntRange(0, 2).Draw(t, "wildNames") == 0 {
+			names = genfont.NamesWild
+		}
 		c := genfont.Gen(genfont.Opts{Kind: kind, MaxGlyphs: rapid.SampledFrom([]int{5, 8, 24}).Draw(t, "maxGlyphs"), MinGlyphs: 2, Layout: layout,
-			StemHeavy: rapid.Bool().Draw(t, "stemHeavy")}).Draw(t, "font")
+			StemHeavy: rapid.Bool().Draw(t, "stemHeavy"), Names: names}).Draw(t, "font")
 		f := c.Font
 		pristine := fontcmp.DeepCopy(f)
 		k := rapid.IntRange(2, 8).Draw(t, "nOps")
